@@ -607,20 +607,34 @@ pub fn c09(rec: &mut Rec, rng: &mut Rng, thorough: bool) {
     }
 }
 
-/// after settling: server-side descriptors = listener + epoll (+ kill switch) + one per still-open accepted client
+/// after settling (everything answered, polled until silent): the server holds exactly listener + epoll
+/// (+ kill switch) + one descriptor per client it cannot know to be gone — i.e. clients that are open, or that
+/// only shut down their READ side and were never written to since. Everything else (closed, shut down for
+/// writing = hang-up seen by the server, shut down for reading and a write failed) must have been released.
 fn release_check(rec: &mut Rec, sim: &mut Sim, prop: &str) {
-    if sim.w.server.is_none() || sim.w.killed {
+    if sim.w.server.is_none() || sim.w.killed || !sim.w.held.is_empty() {
         return;
     }
-    let open_clients = sim.w.clients.iter().filter(|c| c.accepted && c.sock.is_some() && !c.rd_shut && !c.wr_shut).count();
-    let dead_clients = sim.w.clients.iter().filter(|c| c.accepted && (c.sock.is_none())).count();
+    let expected = sim
+        .w
+        .clients
+        .iter()
+        .filter(|c| c.srv_fd.is_some() && !c.refused && c.sock.is_some() && !c.wr_shut && !(c.rd_shut && c.write_failed))
+        .filter(|c| c.accepted)
+        .count();
     let fds = sim.w.server_fds();
     let base = 2 + if sim.w.kill_fd.is_some() { 1 } else { 0 };
     let conns = fds.len().saturating_sub(base);
-    // connections of clients that closed completely must be gone; half-closed ones may legitimately linger or be gone
-    let half = sim.w.clients.iter().filter(|c| c.accepted && c.sock.is_some() && (c.rd_shut || c.wr_shut)).count();
-    if conns < open_clients || conns > open_clients + half {
-        rec.oracle_fail(prop, &format!("server holds {} connection descriptors, {} clients are open, {} half-closed, {} closed", conns, open_clients, half, dead_clients), &sim.w.log);
+    if conns != expected {
+        let detail: Vec<String> = sim
+            .w
+            .clients
+            .iter()
+            .enumerate()
+            .filter(|(_, c)| c.srv_fd.is_some())
+            .map(|(i, c)| format!("c{}:fd{:?}:open={}:rd_shut={}:wr_shut={}:write_failed={}:accepted={}", i, c.srv_fd, c.sock.is_some(), c.rd_shut, c.wr_shut, c.write_failed, c.accepted))
+            .collect();
+        rec.oracle_fail(prop, &format!("after everything was answered the server holds {} connection descriptors, expected {} ({})", conns, expected, detail.join(" ")), &sim.w.log);
     }
 }
 
@@ -665,8 +679,60 @@ pub fn regress_f2(rec: &mut Rec, rng: &mut Rng) {
     sim.w.teardown();
 }
 
+/// at capacity, a client whose request is still unanswered leaves: its connection stays (closed, in flight)
+/// and still counts — a further client must be refused until the application has answered.
+pub fn c10_closed_unanswered_counts(rec: &mut Rec, rng: &mut Rng, leave: usize) {
+    rec.case("capacity-closed-unanswered");
+    rec.nontrivial();
+    let mut cfg = Cfg::base("C10");
+    cfg.max_clients = 13;
+    let mut sim = Sim::new(rec, cfg);
+    for _ in 0..10 {
+        sim.connect(rec);
+        sim.poll(rec);
+    }
+    sim.send_next(rec, rng, 0);
+    while !sim.plans[0].outq.is_empty() {
+        sim.send_next(rec, rng, 0);
+    }
+    for _ in 0..4 {
+        sim.poll(rec);
+    }
+    match leave {
+        0 => sim.w.close(rec, 0),
+        1 => sim.w.shutdown(rec, 0, Shutdown::Write),
+        _ => sim.w.shutdown(rec, 0, Shutdown::Both),
+    }
+    sim.poll(rec);
+    let x = sim.connect(rec);
+    sim.poll(rec);
+    sim.poll(rec);
+    sim.w.client_read(rec, x);
+    let conns = sim.w.server_fds().len().saturating_sub(2);
+    if conns > 10 || !sim.w.clients[x].refused {
+        rec.oracle_fail("C10", &format!("10 connections (one closed with a request in flight) and a further client: the server holds {} connections, the newcomer was {}", conns, if sim.w.clients[x].refused { "refused" } else { "accepted" }), &sim.w.log);
+    }
+    // once answered, capacity is regained
+    while !sim.w.held.is_empty() {
+        sim.respond(rec, rng, 0);
+    }
+    sim.poll(rec);
+    sim.poll(rec);
+    let y = sim.connect(rec);
+    sim.poll(rec);
+    if leave == 0 && !sim.w.clients[y].accepted {
+        rec.oracle_fail("C10", "after the departed client's request was answered a new client was still not accepted", &sim.w.log);
+    }
+    sim.settle(rec, rng);
+    common_checks(rec, &mut sim, "C10");
+    sim.w.teardown();
+}
+
 pub fn c10(rec: &mut Rec, rng: &mut Rng, thorough: bool) {
     regress_f3(rec, rng);
+    for leave in 0..3 {
+        c10_closed_unanswered_counts(rec, rng, leave);
+    }
     let n = if thorough { 800 } else { 40 };
     for k in 0..n {
         rec.case("capacity");
